@@ -198,7 +198,21 @@ def execute_plan(engine, plan, prop, known, keep_trace=False):
                     pass
             ops = duo.build_ops(dcfg)
             D = duo.Duo(dcfg)
-            during = D.run(fn_a, ops)
+            if dcfg.get('burst'):
+                def b_runner(o):
+                    rep = duo.cheap_repeat(o)       # (reference computations happen here, before the judged call)
+                    r = duo._safe(o)
+                    if rep is not None:
+                        try:
+                            for _ in range(dcfg['burst']):
+                                rep()
+                        except Exception:            # noqa: BLE001 - unjudged
+                            pass
+                    return r
+                during = D.run(fn_a, ops, b_runner)
+                ctx.fault('second-caller-thread.burst', dcfg['burst'])
+            else:
+                during = D.run(fn_a, ops)
             alone = [duo._safe(o) for o in ops]
             if D.switches:
                 ctx.fault('second-caller-thread.switches', D.switches)
@@ -403,8 +417,9 @@ def _work_chunk(prop, tier, base, refs, recheck_every, deadline):
             out['stopped_early'] = True
             break
         plan = plan_by_ref(engine, base, prop, tier, ref)
-        # hang detector, re-armed for every run (a single run never legitimately takes this long)
-        faulthandler.dump_traceback_later(900, exit=True)
+        # hang detector, re-armed for every run (a single run never legitimately takes this long, even on a machine
+        # that is several times oversubscribed)
+        faulthandler.dump_traceback_later(3600, exit=True)
         ctx = RunSummary(execute_plan(engine, plan, prop, known))
         out['runs'] += 1
         out['stats'].update(ctx.stats)
@@ -781,11 +796,12 @@ def run_check(prop, tier, base_seed=None, budget_s=None, workers=None, runs=None
             if nsys > 2000 or mode == 'Threads':
                 env['VERIF_SKIP_SYSTEMATIC'] = '1'
             if mode == 'Threads':
+                env['VERIF_BUDGET_S'] = str(max(12.0, budget_s / 5.0))
                 # (every run is executed twice - the determinism re-execution - and is an order of magnitude slower under tracing)
                 env['VERIF_RUNS'] = str(max(40, min(120 if tier == 'quick' else 6000, runs // 12)))
             try:
                 pr = subprocess.run([sys.executable, os.path.join(VERIF, 'vf'), 'check', prop, '--tier', tier], capture_output=True, text=True, env=env,
-                                    cwd=VERIF, timeout=max(600.0, budget_s))
+                                    cwd=VERIF, timeout=max(900.0, 2.5 * budget_s))
                 rc = pr.returncode
                 for line in pr.stdout.splitlines():
                     if line.startswith('violated clause'):
